@@ -114,6 +114,11 @@ var c04Inputs = []string{
 	// a name that is local to the function when first called and a global (defined afterwards) when called again
 	"func wr2(v) { gn = v; v }; println(wr2(5)); gn = 1; println(wr2(5), gn)",
 	"func rd3() { gm = 3; gm }; println(rd3()); gm = 1; println(rd3(), gm)",
+	// a name bound nowhere when the function first runs (the error caught), bound when it runs again
+	"func ou(flag) { if flag { yy = 1 }; func inn() { catch(yy).err }; inn() }; println(ou(false), ou(true), ou(false))",
+	"func lk() { catch(zq).err }; println(lk())", "zq = 1; println(lk())", "del(zq); println(lk())",
+	// functions made by another interpreter state: same text, different globals
+	"ua = unjson(\"N=1; ()=>N\"); ub = unjson(\"N=2; ()=>N\"); println(ua(), ub(), ua())",
 }
 
 type c04Cfg struct{ noReg bool }
